@@ -1218,13 +1218,13 @@ mod pipeline {
     impl Drop for ReadPipelineAdapter {
         // the same rationale as Drop for ReadOutAdapter
         fn drop(&mut self) {
-            // and a piped stdin of the first command, which nobody can
-            // reach through this adapter either
-            if let Some(first) = self.0.first_mut() {
-                first.stdin.take();
-            }
-            if let Some(last) = self.0.last_mut() {
-                last.stdout.take();
+            // and every other pipe end of the commands (a piped stdin of
+            // the first one, a stderr pipe a command was given on its
+            // own), which nobody can reach through this adapter either
+            for cmd in self.0.iter_mut() {
+                cmd.stdin.take();
+                cmd.stdout.take();
+                cmd.stderr.take();
             }
         }
     }
@@ -1251,12 +1251,13 @@ mod pipeline {
     impl Drop for WritePipelineAdapter {
         // the same rationale as Drop for WriteAdapter
         fn drop(&mut self) {
-            let first = &mut self.0[0];
-            first.stdin.take();
-            // and a piped stdout of the last command, which nobody can
-            // reach through this adapter either
-            if let Some(last) = self.0.last_mut() {
-                last.stdout.take();
+            // and every other pipe end of the commands (a piped stdout of
+            // the last one, a stderr pipe a command was given on its
+            // own), which nobody can reach through this adapter either
+            for cmd in self.0.iter_mut() {
+                cmd.stdin.take();
+                cmd.stdout.take();
+                cmd.stderr.take();
             }
         }
     }
